@@ -446,14 +446,8 @@ func lexNumber(l *lexer) stateFn {
 }
 
 func lexPunctuation(l *lexer) stateFn {
-	for {
-		str := l.next()
-		if !isPunctuation(str) {
-			l.backup()
-			break
-		}
-	}
-
+	// One character is one token: "a,,b" is the same as "a, ,b".
+	l.next()
 	l.emit(tokenPunctuation)
 
 	return lexExpression
